@@ -40,13 +40,13 @@ func LongStrings(thorough bool) []string {
 	return l
 }
 
-// ASCII returns every single ASCII byte 1..127 alone and between letters.
-func ASCII() []string {
+// ASCII returns every single ASCII byte 1..127 alone and (between: also) between letters.
+func ASCII(between bool) []string {
 	var l []string
 	for c := 1; c < 128; c++ {
 		l = append(l, string(rune(c)))
 	}
-	for c := 1; c < 128; c++ {
+	for c := 1; c < 128 && between; c++ {
 		l = append(l, "a"+string(rune(c))+"b")
 	}
 	return l
